@@ -38,11 +38,97 @@ struct Observed {
     commands: Vec<String>,
     history_after: Vec<String>,
     read_panic: Option<String>,
+    /// History list right after the constructor (phase 2).
+    history_loaded: Vec<String>,
+    /// Bytes of the history file after phase 2 (None: no file, or the file-less constructor).
+    file_after: Option<Vec<u8>>,
 }
 
-fn observe(history: &[String], keys: &[Key2]) -> Observed {
+/// State of the history file before the session (the editor's only durable state).
+#[derive(Clone, Debug)]
+enum FileState {
+    /// The constructor without a file.
+    Unused,
+    Bytes(Vec<u8>),
+    /// The path of the history file is a directory.
+    Directory,
+}
+
+/// Builds the bytes of a history file holding `history`, damaged the way real files get damaged.
+/// Returns the bytes and the candidate lists the editor may start from.
+fn history_file(history: &[String], fault: &str, at: usize) -> (FileState, Vec<Vec<String>>) {
+    let mut lines: Vec<Vec<u8>> = history.iter().map(|l| l.as_bytes().to_vec()).collect();
+    let at = if lines.is_empty() { 0 } else { at % (lines.len() + 1) };
+    let mut ending: &[u8] = b"\n";
+    let mut last_ending = true;
+    let mut candidates = vec![history.to_vec()];
+    match fault {
+        "blank_lines" => {
+            // Two sessions appending at once (a line and its newline are separate writes), or a
+            // hand-edited file: blank lines are not commands and are not history
+            let blank: &str = if at % 2 == 0 { "" } else { "  " };
+            lines.insert(at, blank.as_bytes().to_vec());
+            // Kept as an entry or dropped on load: both are accepted, what must hold is the
+            // documented rule that Enter never submits a blank line
+            let mut kept = history.to_vec();
+            kept.insert(at, blank.to_string());
+            candidates.push(kept);
+        }
+        "invalid_utf8" => {
+            lines.insert(at, vec![b'e', b'c', 0xff, 0xfe, b'o']);
+            // Either everything before the damaged line, or every intact line
+            candidates.push(history[..at].to_vec());
+        }
+        "crlf" => ending = b"\r\n",
+        "no_trailing_newline" => last_ending = false,
+        "directory" => return (FileState::Directory, vec![Vec::new()]),
+        _ => {}
+    }
+    let mut bytes = Vec::new();
+    let n = lines.len();
+    for (i, l) in lines.iter().enumerate() {
+        bytes.extend_from_slice(l);
+        if i + 1 < n || last_ending {
+            bytes.extend_from_slice(ending);
+        }
+    }
+    (FileState::Bytes(bytes), candidates)
+}
+
+/// The per-process scratch cache directory holding the debugger's history file.
+fn cache_dir() -> std::path::PathBuf {
+    static DIR: std::sync::OnceLock<std::path::PathBuf> = std::sync::OnceLock::new();
+    DIR.get_or_init(|| {
+        let base = if std::path::Path::new("/dev/shm").is_dir() {
+            std::path::PathBuf::from("/dev/shm")
+        } else {
+            std::env::temp_dir()
+        };
+        let dir = base.join(format!("lace-simd-cache-{}", std::process::id()));
+        let _ = std::fs::create_dir_all(&dir);
+        // dirs_next::cache_dir() honours this variable
+        std::env::set_var("XDG_CACHE_HOME", &dir);
+        dir
+    })
+    .clone()
+}
+
+fn observe(history: &[String], keys: &[Key2], file: &FileState) -> Observed {
     let history = history.to_vec();
     let keys = keys.to_vec();
+    let history_file = cache_dir().join("lace-debugger-history");
+    let _ = std::fs::remove_file(&history_file);
+    let _ = std::fs::remove_dir(&history_file);
+    let use_file = !matches!(file, FileState::Unused);
+    match file {
+        FileState::Unused => {}
+        FileState::Bytes(bytes) => {
+            let _ = std::fs::write(&history_file, bytes);
+        }
+        FileState::Directory => {
+            let _ = std::fs::create_dir(&history_file);
+        }
+    }
     let handle = std::thread::Builder::new()
         .name("sim-editor".into())
         .stack_size(4 << 20)
@@ -83,7 +169,23 @@ fn observe(history: &[String], keys: &[Key2]) -> Observed {
             sim.transport = Some(Transport::Terminal(history.clone()));
             sim.keys = keys.iter().map(|k| k.to_key()).collect();
             verif::arm(sim);
-            let mut term2 = VerifTerminal::verif_new(history.clone());
+            // Either the file-less constructor, or the real one reading the prepared history file
+            let built = catch_unwind(AssertUnwindSafe(|| {
+                if use_file {
+                    VerifTerminal::verif_new_with_file()
+                } else {
+                    VerifTerminal::verif_new(history.clone())
+                }
+            }));
+            let mut term2 = match built {
+                Ok(t) => t,
+                Err(_) => {
+                    obs.read_panic = Some(format!("constructor: {}", take_panic_message().unwrap_or_default()));
+                    verif::disarm();
+                    return obs;
+                }
+            };
+            obs.history_loaded = term2.verif_history();
             loop {
                 let result = catch_unwind(AssertUnwindSafe(|| term2.verif_read()));
                 match result {
@@ -101,13 +203,17 @@ fn observe(history: &[String], keys: &[Key2]) -> Observed {
             }
             obs.history_after = catch_unwind(AssertUnwindSafe(|| term2.verif_history())).unwrap_or_default();
             verif::disarm();
+            drop(term2);
+            if use_file {
+                obs.file_after = std::fs::read(&history_file).ok();
+            }
             obs
         })
         .expect("spawn");
     handle.join().unwrap_or_default()
 }
 
-const CHARS: [char; 12] = ['a', 'b', 'Z', '9', ' ', '+', ';', '_', 'é', '😀', '-', 'x'];
+const CHARS: [char; 16] = ['a', 'b', 'Z', '9', ' ', '+', ';', '_', 'é', '😀', '-', 'x', '\u{301}', '\u{200d}', 'ğ', '\u{2019}'];
 
 fn random_key(rng: &mut Rng) -> Key2 {
     match rng.below(20) {
@@ -179,7 +285,7 @@ impl Check for C20 {
         ID
     }
     fn world(&self) -> &'static str {
-        "D (real Terminal line editor on a simulated key device, no history file)"
+        "D (real Terminal line editor on a simulated key device; history file in a scratch cache directory)"
     }
     fn runs(&self, tier: Tier) -> u64 {
         match tier {
@@ -224,14 +330,48 @@ impl Check for C20 {
                 keys.insert((at + i).min(keys.len()), k.clone());
             }
         }
-        scenario_json(history, &keys)
+        let mut scenario = scenario_json(history, &keys);
+        if rng.chance(1, 3) {
+            // Through the real constructor: the history comes from (and goes to) a file
+            scenario.put("history_file", true);
+            if rng.chance(1, 6) {
+                scenario.put("long_history", *rng.pick(&[999i64, 1000, 1001, 1005, 2500]));
+            }
+            if rng.chance(1, 2) {
+                // The file as other sessions, crashes and editors leave it
+                scenario.put("file_fault", *rng.pick(&["blank_lines", "invalid_utf8", "crlf", "no_trailing_newline", "directory"]));
+                scenario.put("file_fault_at", rng.below(8) as i64);
+            }
+        }
+        if rng.chance(1, 5) {
+            // Phase 3: commands given with --command first, then the interactive terminal
+            scenario.put("argument", *rng.pick(&["echo one\n\necho two", "echo one;;echo two", "echo a", "echo x\n", "\necho y"]));
+        }
+        scenario
     }
 
     fn execute(&self, _cap: &Capture, scenario: &J) -> Report {
         let mut report = Report::default();
-        let history = scn::strings_from_json(scenario.get("history").unwrap_or(&J::Null));
+        let mut history = scn::strings_from_json(scenario.get("history").unwrap_or(&J::Null));
+        if let Some(n) = scenario.get_int("long_history") {
+            // A long-lived history file
+            history = (0..n).map(|i| format!("echo n{}", i)).collect();
+        }
         let keys = keys_from_json(scenario.get("keys").unwrap_or(&J::Null));
-        let obs = observe(&history, &keys);
+        let use_file = scenario.get_bool("history_file").unwrap_or(false);
+        let mut file = FileState::Unused;
+        let mut candidates = vec![history.clone()];
+        if use_file {
+            report.hit("fault:pre_existing_history_file");
+            let fault = scenario.get_str("file_fault").unwrap_or("");
+            if !fault.is_empty() {
+                report.hit(&format!("fault:history_file_{}", fault));
+            }
+            let built = history_file(&history, fault, scenario.get_int("file_fault_at").unwrap_or(0) as usize);
+            file = built.0;
+            candidates = built.1;
+        }
+        let obs = observe(&history, &keys, &file);
         let mut v: Vec<Violation> = Vec::new();
         let multibyte = |s: &str| if s.is_ascii() { "ascii" } else { "multibyte" };
 
@@ -313,8 +453,22 @@ impl Check for C20 {
         }
 
         // ----- phase 2: the read() path -----
+        if v.is_empty() && use_file && obs.read_panic.is_none() && !candidates.contains(&obs.history_loaded) {
+            v.push(Violation::new(
+                ID,
+                format!("C20/history-file/loaded/{}", scenario.get_str("file_fault").unwrap_or("intact")),
+                format!(
+                    "history loaded from the file: {} entries {:?}.., expected {} entries (the file's intact lines)",
+                    obs.history_loaded.len(),
+                    obs.history_loaded.iter().take(4).collect::<Vec<_>>(),
+                    candidates[0].len()
+                ),
+            ));
+        }
         if v.is_empty() {
-            let mut model = Editor::new(history.clone());
+            let start = if use_file && obs.read_panic.is_none() { obs.history_loaded.clone() } else { history.clone() };
+            let loaded = start.len();
+            let mut model = Editor::new(start);
             let mut expected: Vec<String> = Vec::new();
             model.begin_line();
             let mut diverged = false;
@@ -355,15 +509,49 @@ impl Check for C20 {
                         format!("command #{} from read(): {:?}, reference {:?}", at, obs.commands.get(at), expected.get(at)),
                     ));
                 } else if obs.history_after != model.history {
+                    let tail = |h: &Vec<String>| h.iter().rev().take(4).rev().cloned().collect::<Vec<_>>();
                     v.push(Violation::new(
                         ID,
                         "C20/read/history".to_string(),
-                        format!("history after the session: {:?}, reference {:?}", obs.history_after, model.history),
+                        format!(
+                            "history after the session ({} entries, ..{:?}), reference ({} entries, ..{:?})",
+                            obs.history_after.len(),
+                            tail(&obs.history_after),
+                            model.history.len(),
+                            tail(&model.history)
+                        ),
                     ));
+                } else if let (Some(after), FileState::Bytes(before)) = (&obs.file_after, &file) {
+                    // Durable state: the file is only ever appended to, one line per new entry
+                    let mut want = before.clone();
+                    for line in &model.history[loaded..] {
+                        want.extend_from_slice(line.as_bytes());
+                        want.push(b'\n');
+                    }
+                    if after != &want {
+                        v.push(Violation::new(
+                            ID,
+                            "C20/read/history-file".to_string(),
+                            format!(
+                                "history file after the session: {} bytes, reference {} bytes (the old {} bytes plus {} appended entries)",
+                                after.len(),
+                                want.len(),
+                                before.len(),
+                                model.history.len() - loaded
+                            ),
+                        ));
+                    }
                 }
                 report.count("probe:commands_read", expected.len() as u64);
             } else {
                 report.hit("adopted:undetermined_word_motion_in_read_path");
+            }
+        }
+
+        // ----- phase 3: a whole debugger session, --command first, then the terminal -----
+        if v.is_empty() {
+            if let Some(argument) = scenario.get_str("argument") {
+                phase3(_cap, argument, &history, &mut report, &mut v, scenario);
             }
         }
 
@@ -441,5 +629,131 @@ impl Check for C20 {
     }
     fn expected_probes(&self) -> Vec<&'static str> {
         vec!["probe:multibyte_on_line", "probe:word_motion_with_multibyte", "probe:history_recall", "probe:line_submitted", "probe:commands_read"]
+    }
+}
+
+/// A debugger session on a trivial program: `--command` holds echo commands (and blank pieces),
+/// then lines are typed on the terminal. Commands given in the argument are not terminal
+/// history; every submitted line must be the reference editor's.
+fn phase3(cap: &Capture, argument: &str, history: &[String], report: &mut Report, v: &mut Vec<Violation>, scenario: &J) {
+    use crate::world_a::{run_session, DebugCfg, End, Image, Session};
+    use lace::verif::Event;
+    // Typed part: history navigation, then an echo line, a few times; finally `exit`
+    let mut rng = Rng::new(fnv(scenario.to_string().as_bytes()) | 1);
+    // The history of this phase holds only commands without effect on the program (echo), so
+    // that the expected sequence of commands is known without a debugger model
+    let history: Vec<String> = if history.is_empty() {
+        Vec::new()
+    } else {
+        let n = 1 + rng.usize_below(3);
+        (0..n).map(|i| if i == 1 { "echo h1;echo é😀".to_string() } else { format!("echo h{}", i) }).collect()
+    };
+    let history = &history[..];
+    let mut keys: Vec<Key2> = Vec::new();
+    let rounds = 1 + rng.usize_below(3);
+    for _ in 0..rounds {
+        for _ in 0..rng.usize_below(4) {
+            keys.push(if rng.chance(2, 3) { Key2::Up } else { Key2::Down });
+        }
+        if rng.chance(2, 3) {
+            for c in format!("echo t{}", rng.below(10)).chars() {
+                keys.push(Key2::Char(c));
+            }
+        }
+        keys.push(Key2::Enter);
+    }
+    // Make sure the session ends: a fresh line holding `exit`
+    for _ in 0..12 {
+        keys.push(Key2::Down);
+    }
+    for _ in 0..40 {
+        keys.push(Key2::Backspace);
+    }
+    for c in "exit".chars() {
+        keys.push(Key2::Char(c));
+    }
+    keys.push(Key2::Enter);
+
+    let session = Session {
+        image: Image::Source("    halt\n".to_string()),
+        stack: false,
+        minimal: true,
+        debug: Some(DebugCfg {
+            arg: Some(argument.to_string()),
+            terminal: Some((history.to_vec(), keys.clone())),
+        }),
+        stdin: Vec::new(),
+        tty_input: None,
+        fuel: 10_000,
+        max_idle: 64,
+        max_commands: 200,
+        log_exec: false,
+    };
+    let outcome = run_session(cap, &session);
+    report.hit("probe:argument_then_terminal_session");
+
+    // Reference: argument pieces first (never history), then the typed lines
+    let mut expected: Vec<String> = Vec::new();
+    for piece in argument.split(|c| c == ';' || c == '\n') {
+        if !piece.trim().is_empty() {
+            expected.push(piece.trim().to_string());
+        }
+    }
+    let mut model = Editor::new(history.to_vec());
+    model.begin_line();
+    for key in &keys {
+        if let Some(line) = model.key(key, None) {
+            for piece in line.split(';') {
+                if !piece.trim().is_empty() {
+                    expected.push(piece.trim().to_string());
+                }
+            }
+            model.submitted(&line);
+            model.begin_line();
+        }
+    }
+    // What the debugger accepted or rejected, in order
+    let mut got: Vec<String> = Vec::new();
+    for e in &outcome.events {
+        match e {
+            Event::Cmd(text) => got.push(text.clone()),
+            Event::CmdError(_) => got.push("<rejected>".to_string()),
+            _ => {}
+        }
+    }
+    let want: Vec<String> = expected
+        .iter()
+        .map(|line| {
+            let mut words = line.splitn(2, ' ');
+            match (words.next(), words.next()) {
+                (Some("echo"), Some(rest)) if !rest.trim().is_empty() => format!("Echo {{ string: {:?} }}", rest.trim()),
+                (Some("exit"), None) => "Exit".to_string(),
+                _ => "<rejected>".to_string(),
+            }
+        })
+        .collect();
+    // The session ends at the first `exit`
+    let cut = want.iter().position(|w| w == "Exit").map(|i| i + 1).unwrap_or(want.len());
+    let want = &want[..cut];
+    if let End::Panic(msg) = &outcome.end {
+        let short: String = msg.split(" @ ").next().unwrap_or("").chars().take(40).collect();
+        v.push(Violation::new(
+            ID,
+            format!("C20/session/panic/{}", short.replace(' ', "_")),
+            format!("session with --command {:?} then typed keys panicked: {}", argument, msg),
+        ));
+    } else if got != want {
+        let at = (0..got.len().max(want.len())).find(|i| got.get(*i) != want.get(*i)).unwrap_or(0);
+        v.push(Violation::new(
+            ID,
+            "C20/session/commands".to_string(),
+            format!(
+                "command #{} of the session: real {:?}, reference {:?} (--command {:?})",
+                at,
+                got.get(at),
+                want.get(at),
+                argument
+            ),
+        ));
     }
 }
